@@ -10,6 +10,8 @@ expression tree:
 
 
 class DefUse:
+    MAXD = 24
+
     def __init__(self, body):
         self.body = body
         self.defs = {}
@@ -35,7 +37,7 @@ class DefUse:
         return None
 
     def origin_place(self, place, depth=0):
-        if depth > 24:
+        if depth > self.MAXD:
             return ("local", place.local)
         base = self.origin_local(place.local, depth + 1)
         for p in place.proj:
@@ -63,7 +65,7 @@ class DefUse:
             if local not in self.defs:
                 return ("arg", local - 1)
         d = self.single(local)
-        if d is None or depth > 24:
+        if d is None or depth > self.MAXD:
             return ("local", local)
         kind, _bi, x = d
         if kind == "call":
@@ -100,7 +102,7 @@ class DefUse:
     def root_local(self, place, depth=0):
         """the single-definition local a place is a pure copy of (through moves, copies and
         tuple packing/unpacking); None if the chain meets a multiply-defined local"""
-        if depth > 24:
+        if depth > self.MAXD:
             return None
         proj = list(place.proj)
         local = place.local
@@ -117,7 +119,7 @@ class DefUse:
                 local = sp.local
                 proj = list(sp.proj) + proj
                 depth += 1
-                if depth > 24:
+                if depth > self.MAXD:
                     return None
                 continue
             if rv.kind == "agg" and rv.agg[0] == "tuple" and proj and proj[0][1:].isdigit() and \
@@ -137,7 +139,7 @@ class DefUse:
             if "promoted" in i and self.body.promoted_index is None and depth < 20:
                 try:
                     pb = self.body.fn.promoted[i["promoted"]]
-                    return DefUse(pb).origin_local(0, depth + 1)
+                    return self.__class__(pb).origin_local(0, depth + 1)
                 except (IndexError, AttributeError):
                     return ("const", None)
             if "v" in i:
